@@ -2,6 +2,10 @@
 """Regenerates MANIFEST.json from the table below (kept in one place so the file stays valid)."""
 import json
 checks = {
+ "C13": dict(level="model_checking", design="§4 C13",
+   text="All interleavings at lock-acquisition granularity (controlled cooperative scheduler over the rewritten sync.RWMutex of package env) of 2-3 threads x 1-2 env operations colliding on one key: every complete call/return history plus a final read is checked for linearizability against a sequential dictionary-chain spec (brute force, cross-checked by porcupine); deadlock detection; lockset monitor asserting every access to values/types happens under the scope's lock.",
+   note="Trusts the RWMutex shadow semantics of the scheduler and the syntactic overlay rewrite (site counts asserted non-zero); memory-model effects below lock granularity are covered only by the lockset invariant; larger shapes use preemption bound 2 (stated in evidence).",
+   technique="stateless model checking of the implementation under a controlled scheduler (exhaustive schedule enumeration, iterative preemption bounding) + linearizability checking (porcupine and brute force) + lockset invariant"),
  "C12": dict(level="model_checking", design="§4 C12",
    text="Explicit-state BFS over all histories of env API calls up to depth 3 (quick) / 4 (thorough) on a growing forest of scopes, reference dictionary-chain model in lock-step; every transition is executed on the real package and the full observable state compared. Exhaustive within the stated alphabet and depth.",
    note="Trusts the ~300-line reference model (refenv) and Go's reflect; values/names/types restricted to the stated pools; error messages not compared.",
